@@ -7,7 +7,7 @@ import PartituraModel.Proofs.C14Main
 namespace C14P
 open Model Model.Pedal
 
-def ped64 (cs : List Control) : List Control := cs.filter (fun c => c.number = 64)
+def ped64 (cs : List Control) : List Control := cs.filter (fun c => c.number = sustainCC)
 
 def evOf (thr : Int) (c : Control) : Ev := (c.time, decide (thr < c.value))
 
